@@ -713,7 +713,7 @@ def shrink(case):
             yield Case(_line(nd), nd, case.tags)
 
 
-NOT_READY = True
+NOT_READY = False
 TECHNIQUE = ("Lean 4 proof: findall (the filtered, depth-gated pre-order + the result-count check), find, the name / path-suffix / "
              "attribute instances, find_children, find_full_path's component-wise descent and find_relative_paths' accumulator-style "
              "resolve are modelled as written and proved equal to their specifications for every tree, start node and query; the "
